@@ -1518,7 +1518,9 @@ def r_random_split(ctx, eqn, k):
 def r_random_fold_in(ctx, eqn, k, d):
     def f(kk, dd):
         ctx.consumed.append(("fold", kk, ctx.path, dd))
-        return Key.Fold(kk, dd)
+        # with JAX's (partitionable) threefry fold_in(k, i) IS split(k)[i] (checked numerically at start-up by
+        # vcheck selftest): model it as the same derived key so that mixing split and fold_in on one key collides
+        return Key.Split(kk, dd)
     return ew(f)(ctx, eqn, k, d)
 
 
